@@ -185,6 +185,11 @@ def worker_main(argv):
         case = spec['case']
         if hasattr(eng, 'setup_worker'):
             eng.setup_worker(check, spec)
+        # histories that ran earlier in the same interpreter (state shared across histories: process-global caches,
+        # registries, static variables in the extension modules) are regenerated from their run indices and replayed first
+        for j in spec.get('prior', []):
+            pc = eng.generate(check, Rng(run_seed(spec['prior_seed'], check, j)), spec['prior_tier'], j)
+            execute_case(eng, check, pc, sandbox)
         res = execute_case(eng, check, case, sandbox)
         json.dump({'violations': res.violations, 'digest': res.digest(), 'log': res.log,
                    'harness_error': res.extra.get('harness_error')}, open(out, 'w'))
@@ -202,6 +207,7 @@ def worker_main(argv):
     transitions = set()
     t_start = time.time()
     deadline = spec.get('deadline_s')
+    executed = []
     for i in indices:
         if deadline and time.time() - t_start > deadline:
             agg['extra']['stopped_at_deadline'] = True
@@ -214,6 +220,8 @@ def worker_main(argv):
         case = eng.generate(check, rng, tier, i)
         res = execute_case(eng, check, case, sandbox)
         faulthandler.cancel_dump_traceback_later()
+        prior = list(executed)
+        executed.append(i)
         agg['runs'] += 1
         agg['steps'] += res.steps
         agg['digests'][str(i)] = res.digest()
@@ -259,7 +267,7 @@ def worker_main(argv):
             r2 = execute_case(eng, check, small, sandbox)
             det = [x for x in r2.violations if x['signature'] == sig]
             agg['violations'][sig] = {
-                'signature': sig, 'run_index': i, 'run_seed': rs, 'case': small, 'original_case': case,
+                'signature': sig, 'run_index': i, 'run_seed': rs, 'case': small, 'original_case': case, 'prior_indices': prior,
                 'original_ops': len(case.get('ops', [])), 'minimised_ops': len(small.get('ops', [])),
                 'minimiser_executions': nexec,
                 'detail': (det[0]['detail'] if det else v['detail']), 'step': (det[0]['step'] if det else v['step']),
